@@ -29,6 +29,14 @@ N_QUICK = 600
 N_QUICK_LOG = 140
 N_QUICK_SCALAR = 90
 LOG_BASES = [2, 'e', 10, 3.5, 0.5, 0.5]
+# fourth stream (appended after the others, which are left exactly as they were): representation changes COMPOSED on one
+# object -- a constructor form (input order permuted; sort / trim / sparse flags) followed by a few in-place steps
+# (d[o] = 0 for an outcome that is not stored yet, make_dense, make_sparse with and without trimming, copy, d[o] = d[o]);
+# the measures are evaluated on the final object, and every joint probability is read back by label
+N_QUICK_CHAIN = 260
+CHAIN_CTORS = [{}, {'sort': False}, {'sort': False}, {'sort': False}, {'sort': False, 'trim': False}, {'trim': False},
+               {'sort': False, 'sparse': False}]
+CHAIN_STEPS = ['assign-zero', 'assign-zero', 'assign-zero', 'dense', 'sparse-untrimmed', 'sparse-trimmed', 'copy', 'reassign']
 SCALAR_TRANSFORMS = ['relabel', 'relabel-reverse', 'class', 'row-order', 'dense', 'pad-space', 'zeros-ctor', 'zeros-assigned',
                      'pmf-only', 'from-joint']
 
@@ -68,6 +76,13 @@ def block_case(rng, n):
     return {'klass': klass, 'n': n, 'alphabets': alphabets, 'outs': support, 'pmf': [str(p) for p in pmf],
             'space': None, 'base': 'linear', 'sparse': True, 'trim': True, 'names': None, 'style': style,
             'spacekind': 'none'}
+
+
+def re_step(entry):
+    """Kind of a step of a chain log entry (for the feature list)."""
+    if entry.startswith('d['):
+        return 'reassign' if entry.endswith(']') else 'assign-zero'
+    return entry
 
 
 def gk_from_definition(rows, groups):
@@ -126,7 +141,11 @@ class C08(object):
             "integer codes; bijective renaming, atom class, input order, stored / assigned zeros, larger sample space, "
             "pmf-only form, from_distribution; entropy, multivariate.entropy, perplexity, extropy in any base, Renyi / "
             "Tsallis linear) against the transformed form, the joint distribution and the definition, and the binary "
-            "entropy of a float p against h(p), h(1-p) and two-outcome distributions. "
+            "entropy of a float p against h(p), h(1-p) and two-outcome distributions. Fourth stream: representation "
+            "changes composed on one object (constructor with the input order permuted and any of sort=False / trim=False / "
+            "sparse=False, then 1-4 in-place steps among d[o] = 0 for an outcome not stored yet, make_dense, make_sparse with "
+            "and without trimming, copy, d[o] = d[o]); every family on the final object (for divergences also one argument "
+            "only, matched by label), and every joint probability read back by its label. "
             "Non-trivial = at least 3 positive outcomes and a non-identity transformation")
     tolerances = {'closed forms': 'atol 1e-9', 'measures with an optimiser inside (CCS)': '1e-5'}
     exhaustive = {}
@@ -181,6 +200,27 @@ class C08(object):
             c['atoms'] = rng.choice(['outcome', 'outcome', 'int'])
             c['transform'] = rng.choice(SCALAR_TRANSFORMS)
             c['family'] = 'scalar'
+            c['seed'] = rng.randrange(2 ** 31)
+            yield c
+
+        # ---- composed representation changes on one object
+        for _ in range(N_QUICK_CHAIN if tier == 'quick' else 2500):
+            n = rng.choice([2, 2, 3, 3, 4])
+            if rng.random() < 0.25:
+                c = block_case(rng, n)
+                c['support'] = 'blocks'
+            else:
+                c = gen.rand_dist_case(rng, nmin=n, nmax=n, amax=3 if n < 4 else 2, bases=['linear'], allow_space=False,
+                                       allow_names=False, max_support=9, klasses=('str', 'tuple'))
+                c['support'] = 'uniform'
+            gen.avoid_subnull(c)
+            c['sparse'], c['trim'] = True, True
+            c['transform'] = 'chain'
+            c['family'] = rng.choice(['shannon', 'shannon', 'multivariate', 'divergence', 'divergence', 'common', 'profile', 'pid', 'other'])
+            if c['family'] == 'pid' and n < 3:
+                c['family'] = 'multivariate'
+            if c['family'] in ('shannon', 'multivariate') and rng.random() < 0.25:
+                c['base'] = rng.choice(LOG_BASES)
             c['seed'] = rng.randrange(2 ** 31)
             yield c
 
@@ -270,6 +310,41 @@ class C08(object):
             else:
                 d2.make_dense()
                 d2.make_sparse(trim=False)
+            return d2, ident
+        if T == 'chain':
+            # representation changes composed on ONE object.  No step changes a joint probability or the sample space.
+            order = [int(j) for j in rs.permutation(len(outs))]
+            kw = dict(CHAIN_CTORS[int(rs.randint(len(CHAIN_CTORS)))])
+            d2 = mk([gen.to_py(outs[j], klass) for j in order], [pmf[j] for j in order], **kw)
+            log = ['Distribution(outcomes in input order %s%s)' % (order, ''.join(', %s=%s' % kv for kv in sorted(kw.items())))]
+            for _ in range(int(rs.randint(1, 5))):
+                step = CHAIN_STEPS[int(rs.randint(len(CHAIN_STEPS)))]
+                u = float(rs.random_sample())
+                if step == 'assign-zero':
+                    stored = set(d2.outcomes)
+                    cand = [o for o in d2.sample_space() if o not in stored]
+                    if not cand:
+                        continue
+                    o = cand[int(u * len(cand))]
+                    d2[o] = zero
+                    log.append('d[%r] = %r' % (o, zero))
+                elif step == 'reassign':
+                    o = d2.outcomes[int(u * len(d2.outcomes))]
+                    d2[o] = d2[o]
+                    log.append('d[%r] = d[%r]' % (o, o))
+                elif step == 'dense':
+                    d2.make_dense()
+                    log.append('make_dense()')
+                elif step == 'sparse-untrimmed':
+                    d2.make_sparse(trim=False)
+                    log.append('make_sparse(trim=False)')
+                elif step == 'sparse-trimmed':
+                    d2.make_sparse()
+                    log.append('make_sparse()')
+                else:
+                    d2 = d2.copy()
+                    log.append('copy()')
+            self.chain_log.append(log)
             return d2, ident
         if T == 'embed':
             # a longer joint distribution: original variable i sits at position pos[i] (any order); every other position
@@ -420,6 +495,7 @@ class C08(object):
         r.features = ['family=%s' % case['family'], 'transform=%s' % case['transform'], 'n=%d' % case['n'],
                       'klass=%s' % case['klass'], 'support=%s' % case.get('support', 'uniform'),
                       'base=%s' % case.get('base', 'linear')]
+        self.chain_log = []
         try:
             self.run_inner(case, drv, r)
         except core.DriverError:
@@ -428,7 +504,32 @@ class C08(object):
             import traceback
             r.oracle_fail = '%s on %s raised %s: %s' % (case['family'], case['transform'], type(e).__name__, str(e)[:160])
             r.detail = {'traceback': traceback.format_exc()[-700:]}
+        if self.chain_log:
+            log = self.chain_log[0]
+            r.features += ['chain-ctor=%s' % (log[0].split(']')[-1].strip(', )') or 'default')]
+            r.features += sorted(set('chain-step=%s' % re_step(x) for x in log[1:]))
+            if r.oracle_fail:
+                r.oracle_fail += ' [chain: %s]' % ' | '.join(' ; '.join(l) for l in self.chain_log)
         return r
+
+    def readback(self, case, d2, r, what='the distribution'):
+        """The premise of the statement for the label-preserving composed changes: every joint probability, looked up by
+        its outcome label in the final object, is the one the distribution was built with (0 for the other outcomes of the
+        sample space)."""
+        if r.oracle_fail:
+            return
+        base = case.get('base', 'linear')
+        given = {}
+        for o, p in zip(case['outs'], case['pmf']):
+            given[gen.to_py(list(o), case['klass'])] = Fraction(p)
+        for o in d2.sample_space():
+            want = float(given.get(o, 0))
+            got = float(gen.lin_of(d2[o], base))
+            if abs(got - want) > 1e-9:
+                r.oracle_fail = ('P(%r) = %r is read back from %s after the composed representation changes; it was built '
+                                 'with P(%r) = %r' % (o, got, what, o, want))
+                r.detail = {'outcome': repr(o), 'observed': got, 'expected': want}
+                return
 
     def run_inner(self, case, drv, r):
         dit = import_dit()
@@ -460,6 +561,10 @@ class C08(object):
             if not self.same(a, b, tol):
                 r.oracle_fail = '%s = %s on the distribution but %s after the transformation "%s"' % (name, a, b, case['transform'])
                 r.detail = {'measure': name, 'before': str(a), 'after': str(b)}
+                return
+        if case['transform'] == 'chain':
+            self.readback(case, d2, r)
+            if r.oracle_fail:
                 return
         n = case['n']
         if case['family'] == 'shannon':
@@ -665,7 +770,7 @@ class C08(object):
                 return
         # transformations that keep the outcome labels may be applied to ONE argument only; the second distribution
         # then also lives on a different (smaller) support: outcomes are matched by label, never by position
-        if case['transform'] in ('row-order', 'dense', 'pad-space', 'log-sparse') + ZERO_ROUTES and len(case['outs']) >= 2:
+        if case['transform'] in ('row-order', 'dense', 'pad-space', 'log-sparse', 'chain') + ZERO_ROUTES and len(case['outs']) >= 2:
             third = dict(case)
             fr = [Fraction(p) for p in case['pmf']]
             third['outs'] = case['outs'][1:]
@@ -685,6 +790,11 @@ class C08(object):
                         r.oracle_fail = ('%s = %r but %r after transforming the %s argument by "%s"'
                                          % (name, x, y, what, case['transform']))
                         return
+        if case['transform'] == 'chain':
+            self.readback(case, d2, r, 'the first distribution')
+            self.readback(other, e2, r, 'the second distribution')
+            if r.oracle_fail:
+                return
         if case['transform'] == 'embed':
             # divergences restricted to the addressed variables (rvs given by position in the longer distributions)
             P = sorted(addr(i) for i in range(n))
